@@ -79,7 +79,11 @@ func c12CallCtx(ctx context.Context, r *redis.Redis, m string, a kit.M, uc bool)
 	n, x, y := int64(kit.Num(a["n"])), int64(kit.Num(a["x"])), int64(kit.Num(a["y"]))
 	f, dst := kit.Str(a["f"]), kit.Str(a["dst"])
 	ss, ks := strs(a["ss"]), strs(a["ks"])
-	anySS := kit.List(a["ss"])
+	// the trailing arguments of the variadic (...any) methods in the shape the row names
+	anySS, shErr := c12Shaped(kit.List(a["ss"]), kit.Str(a["sh"]))
+	if shErr != nil {
+		return false, shErr
+	}
 	page, size := kit.Num(a["page"]), kit.Num(a["size"])
 	bit := kit.Num(a["bit"])
 	do := func(plain, withCtx func()) {
